@@ -721,6 +721,27 @@ Definition Known_raw_eol (st : fstyle) (a : adoc) : bool :=
   | XStream _ => false      (* the generator never draws raw CR spellings inside a cross-reference stream dictionary *)
   end.
 
+(* ---------- known finding C02-deep-parens: a string whose parentheses nest deeper than 100 ---------- *)
+Fixpoint paren_depth_gt (limit : nat) (s : bytes) (depth : nat) : bool :=
+  match s with
+  | [] => false
+  | b :: s' =>
+    if byte_eqb b x28 then (limit <? S depth)%nat || paren_depth_gt limit s' (S depth)
+    else if byte_eqb b x29 then paren_depth_gt limit s' (Nat.pred depth)
+    else paren_depth_gt limit s' depth
+  end.
+
+Fixpoint obj_deep (o : obj) : bool :=
+  match o with
+  | OStr s _ => paren_depth_gt 100 s 0
+  | OArr l => existsb obj_deep l
+  | ODict d | OStream d _ => existsb (fun kv => obj_deep (snd kv)) d
+  | _ => false
+  end.
+
+Definition Known_deep_parens (a : adoc) : bool :=
+  existsb (fun io => obj_deep (snd io)) (a_objs a) || obj_deep (ODict (a_trailer a)).
+
 (* ---------- what the file defines ---------- *)
 (* A stream's Length entry is the number of bytes of its data, whether it was written directly or through
    an indirect object. *)
